@@ -256,6 +256,30 @@ def native(art, tier, stats, fnd):
                 v = s.model()[x].as_string(); names.append(v); s.add(x != z3.StringVal(v))
             s.pop()
         base_out = run(["-o", "-", "ok.sy"]).stdout
+        # names that are not plain identifiers: the chunk is tokenised with the Lua lexer of E-LUA; after the preamble it must read `require <string M>` followed by exactly the tokens of the chunk without --require
+        from luasym import luaparse
+        y = z3.String("q"); s2 = z3.Solver(); s2.set("timeout", 10000)
+        anyc = z3.Union(z3.Range("a", "c"), z3.Re('"'), z3.Re("\\"), z3.Re(" "), z3.Re(";"), z3.Re("-"), z3.Re("]"), z3.Re("'"))
+        s2.add(z3.InRe(y, z3.Plus(anyc)), z3.Length(y) <= 6, z3.Length(y) >= 1, z3.Not(z3.PrefixOf(z3.StringVal("-"), y)))
+        odd = []
+        for extra in ([z3.Contains(y, z3.StringVal('"'))], [z3.Contains(y, z3.StringVal("\\"))], [z3.SuffixOf(z3.StringVal("\\"), y)], [z3.Contains(y, z3.StringVal('";'))], [z3.Contains(y, z3.StringVal("--"))], [z3.Contains(y, z3.StringVal("]]"))], [z3.Contains(y, z3.StringVal(" "))]):
+            s2.push(); s2.add(extra)
+            for _ in range(1 if tier == "quick" else 4):
+                if stats.check(s2) != z3.sat: break
+                v = s2.model()[y].as_string(); v = v.encode().decode("unicode_escape") if "\\u{" not in v and "\\x" in v else v
+                odd.append(v); s2.add(y != z3.StringVal(v))
+            s2.pop()
+        def _after_preamble(text):
+            i = text.rfind("-- End Sylt preamble"); return None if i < 0 else text[i + len("-- End Sylt preamble"):]
+        base_toks = [(k, v) for k, v, _ in luaparse.lex(_after_preamble(base_out) or "")]
+        for mname in odd + ['a"; os.exit(0) --', "a\\", 'x" .. "y', "two words", "li\nne"]:
+            r = run(["-o", "-", "--require", mname, "ok.sy"]); n += 1
+            tail = _after_preamble(r.stdout)
+            try: toks = [(k, v) for k, v, _ in luaparse.lex(tail)] if tail is not None else None
+            except Exception as e: toks = ("lex error", str(e)[:80])
+            if not (r.returncode == 0 and isinstance(toks, list) and toks[:2] == [("name", "require"), ("str", mname)] and toks[2:] == base_toks):
+                fnd.report("require-flag:not-a-plain-name", "--require %r: after the preamble the chunk must read `require <the string M>` and then the unchanged program; got %s" % (mname, str(toks[:6] if isinstance(toks, list) else toks)[:200]),
+                           {"main.sy": PROG_OK}, cmd="sylt -o - --require %r main.sy | grep -n -A1 'End Sylt preamble'" % mname)
         for mname in names + ["ext", "ext.lua", "game.ext", "a.b.lua"]:
             r = run(["-o", "-", "--require", mname, "ok.sy"]); n += 1
             exp = mname[:-4] if mname.endswith(".lua") else mname
